@@ -17,6 +17,11 @@ AF_TYPES = ["LocalCounter", "LocalIntCounter", "LocalHistogram"]
 IDENTS = ["foo", "bar", "post", "get", "put", "delete", "http1", "http2", "alpha", "beta", "gamma", "delta", "v1", "v2", "ok", "err_", "a1", "b2", "zz", "long_value_name", "up", "down", "left", "right"]
 # identifiers the macros' own expansion uses as locals: kept out of the generated space (see DESIGN.md, C19)
 VALUE_STRINGS = ["HTTP/1", "HTTP/2", "", " ", "a b", "é", "日本", "x\"y", "back\\slash", "new\nline", "{}", "=", ",", "le", "0", "-1", "UPPER", "a", "b", "ab", "foo", "bar"]
+# value sets for two adjacent labels whose concatenations coincide unless values are kept apart
+SHIFT_PAIRS = [([("a", "a"), ("ab", "ab")], [("bc", "bc"), ("c", "c")]),
+               ([("p1", "1"), ("p12", "12")], [("s23", "23"), ("s3", "3")]),
+               ([("none", ""), ("x_", "x")], [("none", ""), ("x_", "x")]),
+               ([("e1", "é"), ("e0", "")], [("t1", "x"), ("t2", "éx")])]
 LABEL_KEYS = ["method", "product", "version", "code", "l1", "l2", "zone", "kind", "_x", "A9"]
 
 
@@ -80,6 +85,17 @@ class Decl:
                 self.labels.append((key, ei, vals))
             else:
                 self.labels.append((key, None, vals))
+        # one program in four: two adjacent labels get boundary-shifted value families
+        if nlabels >= 2 and rng.random() < 0.25:
+            at = rng.randrange(nlabels - 1)
+            first, second = rng.choice(SHIFT_PAIRS)
+            for off, vals in ((0, first), (1, second)):
+                key, ei, _ = self.labels[at + off]
+                vals = list(vals)
+                if ei is not None:
+                    self.enums.append(("E%d_%d" % (idx, len(self.enums)), vals))
+                    ei = len(self.enums) - 1
+                self.labels[at + off] = (key, ei, vals)
         self.perm = keys[:]
         rng.shuffle(self.perm)
         self.struct = "S%d" % idx
